@@ -27,7 +27,7 @@ CLASSES = ("constant", "two_valued", "bits2", "bits4", "bits8", "normal", "wide"
 
 def REQUIRED(tier):
     return ["histories:composition", "histories:merge", "histories:merge_of_merges", "class:constant", "class:wide", "class:outlier", "class:tiny",
-            "mode:basic", "mode:full", "constant_channel_checks", "single_sample_chunks", "canary_audits", "cross_partition_checks", "class:const_f64", "class:normal_f64", "histories:large_merge", "regime:merged_count_over_2^21", "histories:observed_mid_stream", "merge:augmented_assignment"]
+            "mode:basic", "mode:full", "constant_channel_checks", "single_sample_chunks", "canary_audits", "cross_partition_checks", "class:const_f64", "class:normal_f64", "histories:large_merge", "regime:merged_count_over_2^21", "histories:observed_mid_stream", "merge:augmented_assignment", "regime:chunks_of_thousands_of_samples"]
 
 
 def cases(tier, seed):
@@ -42,6 +42,11 @@ def cases(tier, seed):
         for split, shift in ((0.5, 5.0), (0.1, -3.0)) if tier == "quick" else ((0.5, 5.0), (0.1, -3.0), (0.9, 40.0), (0.5, 0.0)):
             k += 1
             yield {"kind": "large_merge", "n": n, "split": split, "shift": shift, "dseed": int(seed) * 1009 + k}
+    lrng = np.random.default_rng([seed, 1011])
+    for _ in range(24 if tier == "quick" else 400):     # long streams of few channels: chunks of thousands of samples
+        k += 1
+        yield {"kind": "random", "cls": str(lrng.choice(["normal", "bits8", "outlier", "normal_f64", "two_valued"])), "mode": str(lrng.choice(["basic", "full"])),
+               "n": int(lrng.integers(4100, 40000)), "nchans": int(lrng.choice([1, 2, 3, 4, 5])), "dseed": int(seed) * 1009 + k, "threads": 0, "long": True}
     rng = np.random.default_rng([seed, 1010])
     nr = 400 if tier == "quick" else 8000
     for _ in range(nr):
@@ -274,8 +279,10 @@ def run_case(case, ctx):
                         return (a + b) + c if (k1 + k2) % 2 else a + (b + c)
                     run_hist("merge_of_merges", ["mm", k1, k2 - k1, n - k2], mm)
     else:
+        if case.get("long"):
+            ctx.count("regime:chunks_of_thousands_of_samples")
         for _ in range(6):
-            m = int(rng.integers(1, min(n, 40)))
+            m = int(rng.integers(1, min(n, 40))) if not case.get("long") else int(rng.integers(1, 6))
             cuts = np.sort(rng.choice(np.arange(1, n), size=m - 1, replace=False)) if m > 1 else np.array([], dtype=int)
             chunks = np.diff(np.concatenate([[0], cuts, [n]])).astype(int).tolist()
             if rng.random() < 0.3:  # a run of single-sample chunks
